@@ -65,8 +65,10 @@ def r031_wiring(ctx, rule, only_weights=False):
             okm = m is not None and m.op == "dict" and len(m.args[0]) == 2 and {v for _, v in m.args[0]} == {
                 glob(M_BM + ":true_positive_rate"), glob(M_BM + ":false_positive_rate")}
             sp = kw(c, "sample_params")
-            oks = okm and sp is not None and sp.op == "dict" and {k for k, _ in sp.args[0]} == {k for k, _ in m.args[0]} \
-                and all(v is swd for _, v in sp.args[0])
+            sp = A.C.canon(sp) if sp is not None else None  # a comprehension over the literal metric dict is expanded
+            cswd = A.C.canon(swd)
+            oks = okm and sp is not None and sp.op == "dict" and {k for k, _ in sp.args[0]} == {A.C.canon(k) for k, _ in m.args[0]} \
+                and all(v is cswd for _, v in sp.args[0])
         else:
             okm = kw(c, "metrics") is glob(f"{M_BM}:{base}")
             oks = kw(c, "sample_params") is swd
@@ -111,6 +113,14 @@ def r031_wiring(ctx, rule, only_weights=False):
                     wants = [mk("call", mk("attr", agg_call, "mean"), (), ())]
                 if not any(got is w for w in wants):
                     bad.append(f"agg={av}: {show(got, maxdepth=4)[:120]}")
+                elif av == "worst_case" and got is wants[0]:
+                    # Python's builtin min / max skip a NaN only when it is not the first element: with the TPR disparity
+                    # first, an undefined FPR ratio (0/0, no false positive anywhere) leaves the TPR ratio as the result
+                    m_ = kw(c, "metrics")
+                    order = [v for _, v in m_.args[0]] if m_ is not None and m_.op == "dict" else []
+                    if order != [glob(M_BM + ":true_positive_rate"), glob(M_BM + ":false_positive_rate")]:
+                        bad.append("the builtin min / max over the two disparities is order-sensitive for NaN, and the frame does not list the "
+                                   "true-positive rate first: an undefined FPR disparity now makes the result NaN")
             ctx.exhaustive_spaces.append(f"{name}: agg in (worst_case, mean, other)")
             ctx.ob("R03.2", fq, None, not bad, f"{name}: worst_case -> {'max' if kind == 'difference' else 'min'} over the two "
                    f"rates' {kind}s, mean -> their mean, anything else raises" if not bad else "; ".join(bad),
